@@ -7,3 +7,16 @@ NOTE = ("Trusted base: go/packages, go/types and go/cfg of golang.org/x/tools v0
 claim("C01", "CFG path rules (dominance, for-all loops), ownership/who-may-call, call-site argument agreement",
       "Structural necessary conditions of address exclusivity decided on all paths of the current source: who may write the sharing bookkeeping, checkSharing before assign for every stored address, the shape of checkSharing/sharingOK/BackendKey, argument agreement at the five controller call sites, re-sync after a key change. Not a proof of the behavioural statement over histories.",
       NOTE, "DESIGN.md section 5, C01")
+
+claim("C02", "CFG dominance of filters over every address producer, comparator direction analysis, branch reachability",
+      "Every producer of an address (getIPFromCIDR, poolFor, pinned/fallback pool lists, family selection) is dominated by its membership / policy filters, and the explicit-request branches cannot reach automatic allocation; decided on all paths of the current source. Not a proof of the value-level policy.",
+      NOTE, "DESIGN.md section 5, C02")
+claim("C03", "frozen table of admissible reasons + reachability, path-sensitive typestate (emptiness), ownership of Unassign, dominance",
+      "On all paths of convergeBalancer/SetBalancer/SetPools/Allocate: outside twelve enumerated reasons no clear/reset/allocation is reachable, recorded addresses are re-adopted before allocation, existing allocations are returned unchanged, re-grouped pools re-home, no status write without a difference; restart gate/order shared with C06. Not a proof of the frame condition over histories.",
+      NOTE, "DESIGN.md section 5, C03")
+claim("C06", "CFG dominance (gate), field ownership, comparator analysis, sibling agreement of SyncState switches, path-sensitive typestate",
+      "Restart gate, gate write, assigned-first order, Error->retry / ReprocessAll->reload in all five switches, failed status write -> SyncStateError without touching the allocator, clear-before-allocate; decided on all paths. Not a proof of restart equivalence over crash points.",
+      NOTE, "DESIGN.md section 5, C06")
+claim("C07", "must-pass-through / branch-always path rules, loop-exit analysis, parameter-threading agreement across call sites",
+      "Every release path requests and propagates a full re-sync; the free-address search has no early exit and uses the same keys as the final Assign; decided on all paths. Not a completeness proof against an admissibility oracle.",
+      NOTE, "DESIGN.md section 5, C07")
